@@ -58,12 +58,14 @@ CLAIMED = {
         "writer by an add task; (SQL) the events/tags table invariant is preserved by every committed add_event (all "
         "pre_save outcomes) and by GC, and under it every row of matchingRows is stored and satisfies matchesSpec for one "
         "filter of the REQ; (text) the quote-doubling literal is read back verbatim by a SQL literal reader for every byte "
-        "string. Tie: real planner/execute_one_plan on liblmdb and real build_query/run_query on SQLite vs the models "
+        "string, and (Props/C01Text.lean) the colon-escaped literal written since the fix: commit contains no colon that "
+        "could start a sqlalchemy.text() bind parameter and reads back as the value once text() has removed the escapes "
+        "(C01_sql_literal_roundtrip). Tie: real planner/execute_one_plan on liblmdb and real build_query/run_query on SQLite vs the models "
         "(plan, answer, table dumps); search with an adversarial pool (quotes, backslashes, bind-shaped values, comments, "
         "NUL) incl. the token skeleton and the literal set of the generated SQLite and PostgreSQL statements.",
         "Trusted: Lean kernel + standard axioms; SQLite/aiosqlite/SQLAlchemy; lmdb stand-in; PostgreSQL branch only at "
-        "text level; validation (pydantic NostrQuery) is exercised, not modelled; search filters not modelled; one open "
-        "finding (SQLAlchemy text() colon processing).",
+        "text level; validation (pydantic NostrQuery) is exercised, not modelled; search filters not modelled; the regular "
+        "expressions of sqlalchemy.text() are modelled by their effect on colon-escaped text, not re-implemented.",
         "DESIGN.md §6 C01",
     ),
     "C02": (
@@ -95,12 +97,16 @@ CLAIMED = {
         "Proof: NostrRelay/Props/C12.lean proves for every store and plan that the LMDB answer has at most n events and is "
         "the first n of the unlimited scan (so a limit never reorders or skips, and n >= number of hits truncates nothing); "
         "for SQL that the answer has at most min(limit, default) rows, all of them matching rows, newest first, and that no "
-        "omitted matching row is newer than a sent one, for every state and REQ; effectiveLimit <= default_limit. The "
-        "cases where the current code violates C12 (per-value order, MultiIndex set order, missing max_limit cap and null "
-        "limit on LMDB; limit 0 and one LIMIT per REQ on SQL) are witnesses + known findings.",
+        "omitted matching row is newer than a sent one, for every state and REQ; effectiveLimit <= default_limit; since "
+        "the three fix: commits of this property also that an LMDB plan made for a client never carries a limit above "
+        "max_limit, null included (C12_kv_cap, C12_kv_at_most_max), and that a single SQL filter with limit 0 is answered "
+        "with nothing (C12_sql_limit_zero). Props/C12Order.lean: the answer of a single-kind LMDB plan is ordered by "
+        "created_at, newest first, in every store the writer can produce, hence its limit keeps the newest "
+        "(C12_kv_single_kind_newest_first, C12_kv_single_kind_limit_keeps_newest). The cases where the current code still violates C12 (per-value order and "
+        "MultiIndex set order on LMDB; one LIMIT per REQ on SQL) are witnesses + known findings.",
         "Trusted: as C01/C02; SQLite's ORDER BY/LIMIT is modelled by an insertion sort (ties: any order is accepted by the "
-        "tie); Config.max_limit is set to 20 by the harness so that the cap is reachable; newest-first of single-match LMDB "
-        "scans is proved in Props/C02Scan.lean when present, otherwise only observed.",
+        "tie); Config.max_limit is set to 20 by the harness so that the cap is reachable; newest-first is proved for "
+        "single-kind plans (the other single-value fixed-width plans have the same shape; not instantiated), observed for the rest.",
         "DESIGN.md §6 C12",
     ),
     "C11": (
